@@ -459,9 +459,17 @@ impl<T: Clone> RawTable<T> {
             // hashbrown's `growth_left` bookkeeping underflow. Reset it for real.
             self.table.clear_no_drop();
         }
-        self.table.clone_from_with_hasher(&source.table, &hasher);
+        // `T::clone` and `hasher` are user code and may panic part-way. hashbrown then leaves
+        // the control bytes of the elements cloned so far set while its item count still says
+        // that the table is empty (its own panic guard calls `clear`, which does nothing for an
+        // "empty" table), so the table would later accept more insertions than it has room
+        // for; and whatever did get cloned is placed by the *source's* hasher, which the
+        // caller only installs once we return. So if we unwind, leave an empty table behind.
+        let guard = ResetOnDrop(&mut self.table);
+        guard.0.clone_from_with_hasher(&source.table, &hasher);
         // Since we're doing the work of cloning anyway, we might as well carry the leftovers.
-        and_carry_with_hasher(&mut self.table, &source.leftovers, hasher);
+        and_carry_with_hasher(guard.0, &source.leftovers, hasher);
+        mem::forget(guard);
     }
 
     /// Variant of `clone` to use when a hasher is available.
@@ -638,6 +646,17 @@ impl<T> OldTable<T> {
         if Self::IS_ZST {
             self.items = self.table.iter();
         }
+    }
+}
+
+/// Empties the table when dropped: the elements it knows about are dropped, and then the
+/// control bytes are reset unconditionally.
+struct ResetOnDrop<'a, T>(&'a mut raw::RawTable<T>);
+
+impl<T> Drop for ResetOnDrop<'_, T> {
+    fn drop(&mut self) {
+        self.0.clear();
+        self.0.clear_no_drop();
     }
 }
 
